@@ -114,3 +114,38 @@ package b6
 //@ func World.FindFeatureByID
 //@   trusted
 //@   function
+
+// ---- C39: tag lists as ordered maps, for lists of every length -------------------------
+//@ func Tags.Get
+//@   loop 1 invariant rangeindex >= -1 && forall(j, 0, rangeindex+1, t[j].Key != key)
+//@   ensures forall(i, 0, len(t), implies(t[i].Key == key && forall(j, 0, i, t[j].Key != key), result == t[i]))
+//@   ensures implies(forall(j, 0, len(t), t[j].Key != key), result.Key == "")
+
+//@ func (*Tags).AddTag
+//@   requires t != nil
+//@   modifies *t
+//@   ensures len(*t) == old(len(*t)) + 1 && (*t)[old(len(*t))] == tag
+//@   ensures forall(i, 0, old(len(*t)), (*t)[i] == old((*t)[i]))
+
+//@ func Tags.Clone
+//@   ensures len(result) == len(t) && fresh(result)
+//@   ensures forall(i, 0, len(t), result[i] == t[i])
+
+//@ func (*Tags).MergeFrom
+//@   requires t != nil && base(*t) != base(other)
+//@   modifies *t
+//@   ensures len(*t) == len(other)
+//@   ensures forall(i, 0, len(other), (*t)[i] == other[i])
+
+// ModifyOrAddTag: the first tag with the key gets the new value (everything else stays);
+// without such a tag the new tag is appended.
+//@ func (*Tags).ModifyOrAddTag
+//@   requires t != nil
+//@   modifies *t
+//@   loop 1 invariant rangeindex >= -1 && len(*t) == old(len(*t)) && base(*t) == old(base(*t))
+//@   loop 1 invariant forall(j, 0, len(*t), (*t)[j] == old((*t)[j]))
+//@   loop 1 invariant forall(j, 0, rangeindex+1, (*t)[j].Key != tag.Key)
+//@   ensures implies(result0, len(*t) == old(len(*t)))
+//@   ensures forall(i, 0, old(len(*t)), implies(old((*t)[i].Key) == tag.Key && forall(j, 0, i, old((*t)[j].Key) != tag.Key), result0 && (*t)[i].Key == tag.Key && (*t)[i].Value == tag.Value && result1 == old((*t)[i].Value)))
+//@   ensures forall(i, 0, old(len(*t)), implies(old((*t)[i].Key) != tag.Key || !result0, (*t)[i] == old((*t)[i])))
+//@   ensures implies(forall(j, 0, old(len(*t)), old((*t)[j].Key) != tag.Key), !result0 && len(*t) == old(len(*t)) + 1 && (*t)[old(len(*t))] == tag)
